@@ -173,25 +173,22 @@ def build_open(
     extended: bool | None = None,
     raw_params: bytes | None = None,
 ) -> bytes:
-    """OPEN message.  `asn` > 65535 goes as AS_TRANS in the fixed field."""
-    if raw_params is not None:
-        params = raw_params
-    else:
-        if one_param_per_cap:
-            plist = [capability(c, v) for c, v in caps]
-        else:
-            plist = [b''.join(capability(c, v) for c, v in caps)] if caps else []
-        use_ext = extended if extended is not None else (sum(2 + len(p) for p in plist) > 255 or any(len(p) > 255 for p in plist))
-        if use_ext:
-            body = b''.join(bytes([2]) + struct.pack('!H', len(p)) + p for p in plist)
-            params = bytes([255, 255]) + struct.pack('!H', len(body)) + body
-            my_as = asn if asn <= 65535 else AS_TRANS
-            return message(OPEN, bytes([version]) + struct.pack('!HH', my_as, hold) + ipaddress.IPv4Address(router_id).packed + params)
-        params = b''.join(bytes([2, len(p)]) + p for p in plist)
+    """OPEN message.  `asn` > 65535 goes as AS_TRANS in the fixed field.  Optional parameters use the
+    RFC 9072 extended form when they do not fit the one-byte lengths (or when `extended` is True)."""
     my_as = asn if asn <= 65535 else AS_TRANS
     fixed = bytes([version]) + struct.pack('!HH', my_as, hold) + ipaddress.IPv4Address(router_id).packed
     if raw_params is not None:
-        return message(OPEN, fixed + params)
+        return message(OPEN, fixed + raw_params)
+    if one_param_per_cap:
+        plist = [capability(c, v) for c, v in caps]
+    else:
+        plist = [b''.join(capability(c, v) for c, v in caps)] if caps else []
+    too_big = sum(2 + len(p) for p in plist) > 255 or any(len(p) > 255 for p in plist)
+    use_ext = too_big if extended is None else (extended or too_big)
+    if use_ext:
+        body = b''.join(bytes([2]) + struct.pack('!H', len(p)) + p for p in plist)
+        return message(OPEN, fixed + bytes([255, 255]) + struct.pack('!H', len(body)) + body)
+    params = b''.join(bytes([2, len(p)]) + p for p in plist)
     return message(OPEN, fixed + bytes([len(params)]) + params)
 
 
@@ -286,7 +283,7 @@ def summarise_caps(caps, open_asn: int) -> dict:
         'true_asn': asn4 if asn4 is not None else open_asn,
         'addpath': addpath,
         'nexthop': nexthop,
-        'refresh': 2 in codes or 128 in codes,
+        'refresh': 2 in codes,
         'enh_refresh': 70 in codes,
         'extmsg': 6 in codes,
         'gr': gr,
